@@ -312,6 +312,55 @@ def _fstring_text(e: ast.AST | None) -> str:
     return ''
 
 
+def t2_zero_sums(ctx: Ctx):
+    """`+`, `-` and `fma` are compiled to the machine's own operations under `fesetround`, and the machine follows IEEE 754
+    6.3: an exact zero sum of terms of unlike signs is +0, except -0 under FE_DOWNWARD.  The interpreter computes the sum
+    exactly (a +0) and then rounds, so it has to put that sign on by itself.  (a) `ops.add`, `ops.sub` and `ops.fma` pass
+    the engine's answer through `_zero_sum` with the signs of the terms (x, y), (x, -y), (x * y, z); (b) `_zero_sum` is
+    evaluated, from its source, over results {+0, -0, non-zero, Fraction 0, Fraction non-zero} x the four sign pairs x
+    {toward-negative, another mode, a context without a mode}."""
+    from itertools import product
+
+    from ..minipy import Interp, Obj
+    OPSF = 'fpy2/ops.py'
+    want_terms = {
+        'add': ['(_is_negative(xr), _is_negative(yr))'],
+        'sub': ['(_is_negative(xr), not _is_negative(yr))'],
+        'fma': ['(_is_negative(xr) != _is_negative(yr), _is_negative(zr))', '(_is_negative(yr) != _is_negative(xr), _is_negative(zr))'],
+    }
+    for name, terms in want_terms.items():
+        fn = ctx.fn(OPSF, name)
+        ks = [k for k in calls_in(fn) if call_name(k) == '_zero_sum']
+        norms = [k for k in calls_in(fn) if call_name(k) == '_normalize']
+        ok = len(ks) == 1 and len(ks[0].args) == 3 and norm(ks[0].args[0]) == 'r' and norm(ks[0].args[1]) == 'ctx' and norm(ks[0].args[2]) in terms
+        if ok:
+            holder = [s for s in walk_no_nested(fn) if isinstance(s, ast.Assign) and s.value is ks[0] and norm(s.targets[0]) == 'r']
+            ok = len(holder) == 1 and len(norms) == 1 and holder[0].lineno < norms[0].lineno
+        ctx.check(ok, OPSF, ks[0] if ks else fn, name, f'{name}: the engine\'s answer gets the sign of an exact zero sum from the signs of its terms before it is rounded',
+                  f'got {[norm(k) for k in ks]}: under FE_DOWNWARD the compiled `1 + -1` is -0.0, the interpreted one +0.0')
+    mod = ctx.repo.module(OPSF)
+    funcs = {s.name: s for s in mod.tree.body if isinstance(s, ast.FunctionDef)}
+    fn = funcs['_zero_sum']
+    results = {
+        '+0': Obj('Float', s=False, is_zero=lambda: True), '-0': Obj('Float', s=True, is_zero=lambda: True), 'x': Obj('Float', s=False, is_zero=lambda: False),
+        'Fraction 0': 0, 'Fraction x': 3,
+    }
+    bad = None
+    n = 0
+    for (rk, r), signs, mode in product(results.items(), product((False, True), repeat=2), ('RTN', 'RNE', None)):
+        c = Obj('Context', **({'rm': ('enum', 'RM', mode)} if mode else {}))
+        it = Interp(funcs, overrides={'Float': lambda **kw: ('Float', tuple(sorted(kw.items()))), 'getattr': lambda o, a, d=None: o.fields.get(a, d) if isinstance(o, Obj) else d},
+                    is_a=lambda k, cl: k == cl)
+        got = it.call_function(fn, [r, c, tuple(signs)])
+        want_neg = rk in ('+0', 'Fraction 0') and signs[0] != signs[1] and mode == 'RTN'
+        is_neg_zero = isinstance(got, tuple) and got[0] == 'Float' and dict(got[1]).get('s') is True and dict(got[1]).get('c') == 0
+        n += 1
+        okk = is_neg_zero if want_neg else (got is r or got == r)
+        if not okk and bad is None:
+            bad = f'result {rk}, term signs {signs}, mode {mode}: gives {got!r}, IEEE gives {"-0" if want_neg else "the result unchanged"}'
+    ctx.check(bad is None, OPSF, fn, '_zero_sum', f'an exact cancellation is -0 under round-toward-negative and untouched otherwise ({n} cases)', bad or '')
+
+
 def p2_range_loops(ctx: Ctx):
     """`for i in range(start, stop, step)` in the interpreter: the three values are fixed before the first trip, the loop
     counts up to (below) `stop` for a positive step and down to (above) it for a negative one.  The emitted C++ loop has
@@ -410,6 +459,7 @@ RULES = [
     Rule('C11.X1', 'every node kind is emitted or refused; no signature => CppEmitError; widening only under REAL', x1_emit_or_refuse, 40, 'X'),
     Rule('C11.G1', 'explicit roundings are emitted as casts only when the context is exactly a machine format', g1_cast_is_round, 5, 'G'),
     Rule('C11.G2', 'a list name is bound as a C++ reference to another variable only when neither is ever rebound', g2_reference_binding, 4, 'G'),
+    Rule('C11.T2', 'the interpreter gives an exact zero sum the sign the machine gives it (-0 under round-toward-negative)', t2_zero_sums, 4, 'T'),
     Rule('C11.P2', 'range loops: the exit test follows the sign of the step; stop and step are fixed before the first trip', p2_range_loops, 11, 'P,T'),
     Rule('C11.D1', 'static array lengths: the length of a region is the meet of every contribution, unknown absorbing', d1_region_sizes, 4, 'D'),
 ]
@@ -417,6 +467,13 @@ RULES = [
 from ..selftest import Mutant  # noqa: E402
 
 MUTANTS = [
+    Mutant('cancellation-is-plus-zero-in-every-mode', 'fpy2/ops.py', "    if cancelled and len(set(negative)) > 1 and getattr(ctx, 'rm', None) is RM.RTN:\n        return Float(s=True, c=0)\n", "", 'C11.T2',
+           'finding F67 before its repair: 1 + -1 under FE_DOWNWARD is -0.0 compiled and +0.0 interpreted'),
+    Mutant('subtraction-takes-the-sign-of-y-as-written', 'fpy2/ops.py', "            r = _zero_sum(r, ctx, (_is_negative(xr), not _is_negative(yr)))", "            r = _zero_sum(r, ctx, (_is_negative(xr), _is_negative(yr)))", 'C11.T2',
+           '1 - 1 is the sum of 1 and -1'),
+    Mutant('like-signed-zeros-made-negative', 'fpy2/ops.py', "    if cancelled and len(set(negative)) > 1 and getattr(ctx, 'rm', None) is RM.RTN:", "    if cancelled and getattr(ctx, 'rm', None) is RM.RTN:", 'C11.T2',
+           '(+0) + (+0) is +0 in every mode'),
+    Mutant('fma-ignores-the-sign-of-the-product', 'fpy2/ops.py', "            r = _zero_sum(r, ctx, (_is_negative(xr) != _is_negative(yr), _is_negative(zr)))", "            r = _zero_sum(r, ctx, (_is_negative(xr), _is_negative(zr)))", 'C11.T2'),
     Mutant('stepped-loop-always-counts-up', EMITTER, "                test = self._range_exit_test(target, stop, iterable.args[2], step)\n                return f'for ({decl} = {start}; {test}; {target} += {step})'",
            "                return f'for ({decl} = {start}; {target} < {stop}; {target} += {step})'", 'C11.P2',
            'finding F47 before its repair: for i in range(n, 0, -1) is an empty loop in C++'),
